@@ -83,3 +83,16 @@ def load_value(v):
     data = json.loads(v)
     meta = {k: v for k, v in data['meta'].items() if not k.startswith('__') and k not in META_EXCLUDE}
     return data['value'], data['id'], data['errors'], meta
+
+
+def is_value_packet(s):
+    """
+    Tell a value packet from a call packet by its top-level keys: the text
+    '"value":' also occurs in a call whose (keyword) arguments have a key
+    named value.
+    """
+    try:
+        data = json.loads(s)
+    except ValueError:
+        return False
+    return isinstance(data, dict) and 'value' in data and 'name' not in data
